@@ -360,7 +360,7 @@ fn gen(r: &mut Rng, tier: &Tier, out: &mut Vec<String>) {
     let wins: Vec<u16> = { let mut w = vec![0u16, 1, 255, 256, 512, 768, 1024, 2048, 4096, 8192, 16384, 32768, 65280, 65535, 1500, 3000, 1460, 2920, 1448, 2896, 1440, 2880, 1428, 2856, 2810, 5840, 5792, 14600, 29200, 64240, 8191, 65521];
         for m in [536u32, 1400, 1460, 1440] { for k in [1u32, 2, 4, 10, 44, 45, 255, 256] { for d in [m, m - 12, m + 40, m + 60, m + 5, m + 6, m + 20] { let x = k * d; if x <= 65535 { w.push(x as u16); } } } }
         w.sort(); w.dedup(); w };
-    let grid_mss: &[u16] = if tier.thorough { MSSES } else { &[0, 99, 100, 536, 1400, 1460, 65535] };
+    let grid_mss: &[u16] = if tier.thorough { MSSES } else { &[0, 99, 100, 536, 1400, 1460, 65496, 65535] };
     for &m in grid_mss { for &w in &wins { for ts in [false, true] {
         let mut o = mss_opt(m); if ts { o.extend_from_slice(&[1, 1]); o.extend(ts_opt(5, 0)); }
         let mut t = std_tcp(2); t.win = w; t.opts = o.clone();
